@@ -2,7 +2,9 @@
    (integers and strings); the answer is a text block the harness diffs against
    the implementation's canonical text.  Definitions only. *)
 From Coq Require Import ZArith QArith List Bool String Ascii.
-From Droop Require Import Model.KernelBase Model.Str Model.Arith Gen.FixedKernels Gen.GuardedKernels.
+From Coq Require Import PArith.
+From Droop Require Import Model.KernelBase Model.Str Model.Arith Gen.FixedKernels Gen.GuardedKernels
+  Model.Prelude Model.State Model.Prims Model.RulesGregory Model.RulesMeek Model.Election.
 Import ListNotations.
 Open Scope string_scope.
 Open Scope Z_scope.
@@ -130,9 +132,151 @@ Definition run_values (l : list Z) : string :=
   | _ => "badcase"
   end.
 
+(* ------------------------------------------------------------------ count driver *)
+(* token stream readers *)
+Definition rd_int (l : list tok) : option (Z * list tok) :=
+  match l with TI z :: t => Some (z, t) | _ => None end.
+Definition rd_str (l : list tok) : option (string * list tok) :=
+  match l with TS x :: t => Some (x, t) | _ => None end.
+Fixpoint rd_ints (n : nat) (l : list tok) : option (list Z * list tok) :=
+  match n with
+  | O => Some ([], l)
+  | S k => match rd_int l with
+           | Some (z, t) => match rd_ints k t with Some (zs, t') => Some (z :: zs, t') | None => None end
+           | None => None end
+  end.
+
+Definition rd_cand (l : list tok) : option (pcand * list tok) :=
+  match l with
+  | TI c :: TI o :: TI ti :: TS nm :: TS nk :: TI w :: TI u :: t =>
+    Some (mkPcand c o ti nm nk (negb (w =? 0)) (negb (u =? 0)), t)
+  | _ => None
+  end.
+Fixpoint rd_many {X} (rd : list tok -> option (X * list tok)) (n : nat) (l : list tok) : option (list X * list tok) :=
+  match n with
+  | O => Some ([], l)
+  | S k => match rd l with
+           | Some (x, t) => match rd_many rd k t with Some (xs, t') => Some (x :: xs, t') | None => None end
+           | None => None end
+  end.
+Definition rd_ballot (l : list tok) : option ((Z * list Z) * list tok) :=
+  match l with
+  | TI m :: TI n :: t => match rd_ints (Z.to_nat n) t with Some (r, t') => Some ((m, r), t') | None => None end
+  | _ => None
+  end.
+Definition rd_rank (l : list tok) : option (list Z * list tok) :=
+  match l with
+  | TI n :: t => rd_ints (Z.to_nat n) t
+  | _ => None
+  end.
+Definition rd_eballot (l : list tok) : option ((Z * list (list Z)) * list tok) :=
+  match l with
+  | TI m :: TI n :: t => match rd_many rd_rank (Z.to_nat n) t with Some (r, t') => Some ((m, r), t') | None => None end
+  | _ => None
+  end.
+
+Definition tag_name (t : tag) : string :=
+  match t with
+  | TBegin => "begin" | TCount => "count" | TLog => "log" | TRound => "round" | TTie => "tie" | TElect => "elect"
+  | TDefeat => "defeat" | TIterate => "iterate" | TUnpend => "unpend" | TTransfer => "transfer" | TEnd => "end"
+  end.
+Definition state_name (c : cstate) : string :=
+  match c with Hopeful => "hopeful" | Elected => "elected" | Defeated => "defeated" | Withdrawn => "withdrawn" end.
+Definition is_wigm (m : meth) : bool := match m with MWigm => true | _ => false end.
+Definition code_of (m : meth) (c : cstate) (p : option bool) : string :=
+  match c with
+  | Withdrawn => "W" | Hopeful => "H" | Defeated => "D"
+  | Elected => if is_wigm m && match p with Some true => true | _ => false end then "e" else "E"
+  end.
+Definition lf : string := String (Ascii.ascii_of_nat 10) EmptyString.
+
+Section Show.
+Variable A : arith.
+Variable m : meth.
+Definition showv (v : T A) : string := raw_repr A v ++ "~" ++ str A v.
+Definition showov (o : option (T A)) : string := match o with Some v => showv v | None => "-" end.
+Definition show_pend (p : option bool) : string :=
+  match p with None => "-" | Some true => "1" | Some false => "0" end.
+Definition show_csnap (c : csnap A) : string :=
+  match sn_st c with
+  | Withdrawn => "C " ++ string_of_Z (sn_cid c) ++ " withdrawn W" ++ lf
+  | st => "C " ++ string_of_Z (sn_cid c) ++ " " ++ state_name st ++ " " ++ code_of m st (sn_pend c) ++ " " ++
+          showv (sn_vote c) ++ " kf=" ++ showov (sn_kf c) ++ " quo=" ++ showov (sn_quo c) ++
+          " p=" ++ show_pend (sn_pend c) ++ lf
+  end.
+Definition show_ballots (l : list (nat * T A)) : string :=
+  "B" ++ fold_right (fun '(i, w) acc => " " ++ string_of_Z (Z.of_nat i) ++ ":" ++ raw_repr A w ++ acc) "" l ++ lf.
+Definition show_action (a : action A) : string :=
+  "A " ++ tag_name (a_tag a) ++ " " ++ string_of_Z (a_round a) ++ " " ++ a_msg a ++ lf ++
+  match a_snap a with
+  | None => ""
+  | Some sn =>
+    "S q=" ++ showv (as_quota sn) ++ " v=" ++ showv (as_votes sn) ++ " nt=" ++ showov (as_nt sn) ++
+    " s=" ++ showov (as_surplus sn) ++ lf ++
+    fold_right (fun c acc => show_csnap c ++ acc) "" (as_c sn) ++ show_ballots (as_ballots sn)
+  end.
+Definition show_cids (l : list (cand A)) : string :=
+  fold_right (fun c acc => " " ++ string_of_Z (cid c) ++ acc) "" l.
+Definition show_outcome (o : outcome A) : string :=
+  match o with
+  | OutOfFuel => "X OutOfFuel"
+  | Crashed s e => fold_left (fun acc a => show_action a ++ acc) (actions s) "" ++ "X " ++ exn_name e
+  | Done s ok =>
+    fold_left (fun acc a => show_action a ++ acc) (actions s) "" ++
+    "R elected=" ++ show_cids (electeds A s) ++ " defeated=" ++ show_cids (defeateds A s) ++
+    " withdrawn=" ++ show_cids (withdrawns A s) ++ lf ++
+    (if ok then "P ok" else "X AssertionError")
+  end.
+End Show.
+
+Definition rule_of (z : Z) : rule :=
+  match z with
+  | 0 => RWigm | 1 => RWigmPrf | 2 => RScotland | 3 => RCfer | 4 => RMpls | 5 => RMeek | 6 => RMeekPrf | _ => RQpq
+  end.
+Definition meth_of (r : rule) : meth :=
+  match r with RMeek | RMeekPrf => MMeek | RQpq => MQpq | _ => MWigm end.
+
+(* count <rulename> rule arith p g d stale omega10 intquota batchzero batch warren fuelbits nseats nballots
+         ncand {cid order tie name nick w u}* nb {mult n cid*}* neb {mult nr {n cid*}*}* *)
+Definition run_count_case (l : list tok) : string :=
+  match l with
+  | TS rname :: TI rl :: TI ar :: TI p :: TI g :: TI d :: TI stale :: TI om :: TI iq :: TI bz :: TI bt :: TI wa ::
+    TI fb :: TI ns :: TI nb :: TI nc :: rest =>
+    match rd_many rd_cand (Z.to_nat nc) rest with
+    | None => "badcands"
+    | Some (cs, rest1) =>
+      match rest1 with
+      | TI nbl :: rest2 =>
+        match rd_many rd_ballot (Z.to_nat nbl) rest2 with
+        | None => "badballots"
+        | Some (bs, rest3) =>
+          match rest3 with
+          | TI nebl :: rest4 =>
+            match rd_many rd_eballot (Z.to_nat nebl) rest4 with
+            | None => "badeballots"
+            | Some (ebs, _) =>
+              let r := rule_of rl in
+              let cfg := mkConfig rname (meth_of r) ns nb (negb (iq =? 0)) (negb (bz =? 0)) (negb (bt =? 0))
+                                  (negb (wa =? 0)) om in
+              let pr := mkProfile ns nb cs bs ebs in
+              let fuel := Pos.pow 2 (Z.to_pos fb) in
+              if ar =? 0 then show_outcome (Fixed p d) (meth_of r) (run_count (Fixed p d) cfg fuel r pr)
+              else if ar =? 1 then show_outcome (Guarded p g d stale) (meth_of r) (run_count (Guarded p g d stale) cfg fuel r pr)
+              else show_outcome (Rational d) (meth_of r) (run_count (Rational d) cfg fuel r pr)
+            end
+          | _ => "badeballots"
+          end
+        end
+      | _ => "badballots"
+      end
+    end
+  | _ => "badcount"
+  end.
+
 (* top level: first token selects the sub-driver *)
 Definition run (l : list tok) : string :=
   match l with
   | TS "values" :: rest => run_values (toks_ints rest)
+  | TS "count" :: rest => run_count_case rest
   | _ => "badcommand"
   end.
